@@ -6,16 +6,17 @@ must equal stage-2 objects.  Corpus: the compiler's own sources, the bundled tes
 generators and invalid mutants (diagnostics must match too).  Determinism: one binary re-run under disabled ASLR, padded
 environment and a shifted clock must reproduce its output (inputs using __DATE__/__TIME__/__TIMESTAMP__ excluded).
 A sample of stage-2 runs goes through valgrind memcheck."""
-import os, re, random, shutil, hashlib
+import os, re, random, shutil, hashlib, zlib
 from lib import core, pptok
 
 LEVEL = 'exploration'
-MIN_COUNTS = {'cases_compared': (2100, 60000), 'determinism_runs': (100, 2000), 'memcheck_runs': (2, 30)}
+MIN_COUNTS = {'cases_compared': (2400, 60000), 'determinism_runs': (100, 2000), 'memcheck_runs': (2, 30)}
 
 # the stages run at different instants: __DATE__/__TIME__ are pinned by a preloaded time() so that they cannot differ
 FIXED_CLOCK = {'LD_PRELOAD': os.path.join(core.VERIF, 'build', 'faketime.so'), 'VERIF_TIME_FIXED': '1790000000'}
 
-OPTSETS = [['-S'], ['-E'], ['-c'], ['-S', '-fPIC'], ['-S', '-fno-common'], ['-S', '-DFOO=1', '-UBAR', '-DBAR=2'], ['-M'], ['-c', '-fPIC']]
+OPTSETS = [['-S'], ['-E'], ['-c'], ['-S', '-fPIC'], ['-S', '-fno-common'], ['-S', '-DFOO=1', '-UBAR', '-DBAR=2'], ['-M'], ['-c', '-fPIC'],
+           ['-c', '-MD', '-MF', 'dep.d'], ['-c', '-MD'], ['-S', '-MMD', '-MP', '-MF', 'dep.d'], ['-M', '-MT', 'tgt.o', '-MP'], ['-E', '-MD', '-MF', 'dep.d']]
 
 
 HOSTILE_LITS = ['0.0/0.0', '1e30', '-1e30', '1e19', '-0.5', '1.0/0.0', '-1.0/0.0', '3.7', '0x7fffffffffffffff', '(-0x7fffffffffffffffL-1)', '-1', '63', '64', '65', '31', '32',
@@ -74,6 +75,12 @@ def run_stages(a):
         if os.path.exists(out):
             data = open(out, 'rb').read()
             os.unlink(out)
+        # dependency files written on the side (-MD / -MMD / -MF) belong to the output
+        for side in ('dep.d', 'out.d'):
+            sp = os.path.join(jd, side)
+            if os.path.exists(sp):
+                data += b'\n--' + side.encode() + b'--\n' + open(sp, 'rb').read()
+                os.unlink(sp)
         res.append((rc, hashlib.sha1(o).hexdigest(), e, hashlib.sha1(data).hexdigest(), len(data), data[:0]))
     shutil.rmtree(jd, ignore_errors=True)
     return idx, res
@@ -82,6 +89,8 @@ def run_stages(a):
 def run_det(a):
     (idx, sdir, path, opts, extra, workdir, mode) = a
     out = os.path.join(workdir, 'd%d_%s' % (idx, mode))
+    if zlib.crc32(path.encode()) % 3 == 0:
+        opts = ['-c', '-MD']          # the dependency file is written next to the output: d<idx>_<mode>.d
     cmd = ['./chibicc'] + opts + extra + ['-o', out, path]
     env = None
     if mode == 'noaslr':
@@ -94,6 +103,10 @@ def run_det(a):
     data = open(out, 'rb').read() if os.path.exists(out) else b''
     if os.path.exists(out):
         os.unlink(out)
+    if os.path.exists(out + '.d'):
+        # the rule names the output file, whose name carries the mode: normalise that one word
+        data += open(out + '.d', 'rb').read().replace(os.path.basename(out).encode(), b'OUT')
+        os.unlink(out + '.d')
     return idx, mode, (rc, hashlib.sha1(o + e + data).hexdigest())
 
 
@@ -161,8 +174,17 @@ def run(ctx):
         corpus.append((p, [], 'gen-hostile-const'))
     # full grid: every hostile literal converted to every type, and every pair under the operators with undefined corners
     grid = ['%s hgNN = (%s)(%s);' % (t, t, l) for t in HOSTILE_TYPES for l in HOSTILE_LITS]
-    ints = ['0x7fffffffffffffff', '(-0x7fffffffffffffffL-1)', '-1', '0', '1', '63', '64', '65', '-2', '2147483647', '(-2147483647-1)', '31', '32', '33', '18446744073709551615u']
-    grid += ['long hgNN = (%s) %s (%s);' % (a, op, b) for op in ('/', '%', '<<', '>>', '*', '+', '-') for a in ints for b in ints]
+    ints = ['0x7fffffffffffffff', '(-0x7fffffffffffffffL-1)', '-1', '0', '1', '63', '64', '65', '-2', '2147483647', '(-2147483647-1)', '31', '32', '33', '18446744073709551615u',
+            '0x8000000000000000', '9223372036854775809u', '4294967295u', '0x80000000']
+    grid += ['long hgNN = (%s) %s (%s);' % (a, op, b) for op in ('/', '%', '<<', '>>', '*', '+', '-', '<', '<=', '>', '>=', '==', '!=', '&', '|', '^') for a in ints for b in ints]
+    # the same comparisons decide conditional inclusion
+    cmpi = ['0x8000000000000000', '0xFFFFFFFFFFFFFFFF', '1', '0', '-1', '0x7fffffffffffffff', '4294967296', '2147483648u', '-2147483648']
+    ppl = ['#if (%s) %s (%s)\nint ppNN = 1;\n#else\nint ppNN = 2;\n#endif' % (a, op, b) for op in ('<', '<=', '>', '>=', '==', '!=', '/', '%', '>>') for a in cmpi for b in cmpi
+           if not (op in ('/', '%') and b == '0')]
+    for k in range(0, len(ppl), 12):
+        p = os.path.join(gen, 'hpp%d.c' % k)
+        open(p, 'w').write('\n'.join(g.replace('ppNN', 'pp%d' % (k + j)) for j, g in enumerate(ppl[k:k + 12])) + '\n')
+        corpus.append((p, [], 'gen-hostile-const'))
     for k in range(0, len(grid), 8):
         p = os.path.join(gen, 'hgrid%d.c' % k)
         open(p, 'w').write('\n'.join(g.replace('hgNN', 'hg%d' % (k + j)) for j, g in enumerate(grid[k:k + 8])) + '\n' + FP_TRAILER + '\n')
